@@ -83,7 +83,7 @@ def gen_req_case(rng, timed=False, allow_opt_change=False, allow_cancel_send=Fal
             t = g.tgt()
             for p in range(g.npipes):
                 L.append("sent p%d" % p)
-            a = g.aio(); L.append("send %s %s - %s" % (t, a, g.body("aa"))); last_send_aio[t] = a; nreq += 1; recv_after_send[t] = False
+            a = g.aio(); L.append("send %s %s %s %s" % (t, a, app_hdr(rng, nreq, g.npipes), g.body("aa"))); last_send_aio[t] = a; nreq += 1; recv_after_send[t] = False
             early = rng.random() < 0.5
             if early:
                 L.append("recv %s %s" % (t, g.aio())); recv_after_send[t] = True
@@ -111,9 +111,9 @@ def gen_req_case(rng, timed=False, allow_opt_change=False, allow_cancel_send=Fal
         elif r < 0.26:
             t = g.tgt()
             if rng.random() < 0.7:
-                a = g.aio(); L.append("send %s %s - %s" % (t, a, g.body("aa"))); last_send_aio[t] = a
+                a = g.aio(); L.append("send %s %s %s %s" % (t, a, app_hdr(rng, nreq, g.npipes), g.body("aa"))); last_send_aio[t] = a
             else:
-                L.append("sendnb %s - %s" % (t, g.body("aa")))
+                L.append("sendnb %s %s %s" % (t, app_hdr(rng, nreq, g.npipes), g.body("aa")))
             nreq += 1 if live else 0; recv_after_send[t] = False
         elif r < 0.40:
             t = g.tgt()
@@ -126,8 +126,11 @@ def gen_req_case(rng, timed=False, allow_opt_change=False, allow_cancel_send=Fal
         elif r < 0.82 and g.npipes:
             p = rng.randrange(g.npipes)
             k = rng.random()
-            if k < 0.55 and nreq:
+            if k < 0.45 and nreq:
                 idw = "[R%d]" % max(0, nreq - 1 - rng.choice([0, 0, 0, 1, 2]))       # current / stale / other context's
+            elif k < 0.57 and nreq:
+                # an id the peer was not shown: abandoned before it reached the wire, refused, or still queued
+                idw = "[R%d%+d]" % (max(0, nreq - 1 - rng.choice([0, 0, 1])), rng.choice([-2, -1, -1, 1, 1, 2, 3]))
             elif k < 0.65:
                 idw = "[R%d]" % (nreq + 1)                                          # not yet on the wire (0 word)
             elif k < 0.75:
@@ -139,6 +142,18 @@ def gen_req_case(rng, timed=False, allow_opt_change=False, allow_cancel_send=Fal
             else:
                 idw = words(rng, 1) + "[R%d]" % max(0, nreq - 1)                   # id hidden behind a backtrace word
             L.append("inject p%d %s" % (p, (idw + (g.body("bb") if (len(idw) >= 8 or idw.startswith("[")) else "")) or "-"))
+        elif r < 0.84 and not live and g.npipes < 3 and rng.random() < 0.35:
+            # a request that never reaches the wire: queued for want of a pipe, abandoned, then a pipe connects
+            t = g.tgt()
+            a = g.aio(); L.append("send %s %s %s %s" % (t, a, app_hdr(rng, nreq, g.npipes), g.body("aa"))); last_send_aio[t] = a; recv_after_send[t] = False
+            k = rng.random()
+            if k < 0.4:
+                L.append("cancel %s" % a)
+            elif k < 0.7:
+                a = g.aio(); L.append("send %s %s - %s" % (t, a, g.body("aa"))); last_send_aio[t] = a; nreq += 1
+            elif k < 0.85 and t in g.ctxs:
+                g.ctxs.remove(t); L.append("ctxclose %s" % t)
+            L.append("conn s0 49"); g.npipes += 1; live += 1
         elif r < 0.87 and g.npipes:
             L.append("drop p%d" % rng.randrange(g.npipes)); live = max(0, live - 1)
         elif r < 0.92 and g.naio:
@@ -173,6 +188,197 @@ def gen_req_case(rng, timed=False, allow_opt_change=False, allow_cancel_send=Fal
     return L
 
 
+def app_hdr(rng, nseen=0, npipes=0, ids=()):
+    """a header the application leaves on a message it hands to a cooked send: empty most of the time, else 1-3 words --
+    random words with and without the high bit, the id of a live request ([R<n>] on a REQ socket, a literal on a REP
+    socket), a pipe id.  A cooked send must ignore all of it."""
+    if rng.random() < 0.6:
+        return "-"
+    out = []
+    for _ in range(rng.choice([1, 1, 2, 3])):
+        k = rng.random()
+        if k < 0.25:
+            out.append("%08x" % (0x80000000 | rng.randrange(1 << 31)))
+        elif k < 0.45:
+            out.append(words(rng, 1))
+        elif k < 0.65 and nseen:
+            out.append("[R%d]" % rng.randrange(nseen))
+        elif k < 0.65 and ids:
+            out.append(rng.choice(list(ids)))
+        elif k < 0.80 and npipes:
+            out.append("[P%d]" % rng.randrange(npipes))
+        elif k < 0.90:
+            out.append(rng.choice(["80000000", "ffffffff", "00000000", "7fffffff"]))
+        else:
+            out.append("%08x" % rng.randrange(1 << 32))
+    return "".join(out)
+
+
+def gen_req_ids_case(rng):
+    """directed histories about ids the peer was never shown.  Every send allocates the next request id, also a send
+    that never reaches the wire; ids are consecutive, so a peer can name them: the id with allocation number q is
+    spelt relative to an id seen on the wire ([R<j>+d] / [R<j>-d], resolved by the drivers).  Phases, in random order:
+      exchange   an ordinary request/reply (teaches the peer an id), duplicates of the reply, ESTATE afterwards
+      abandon    no ready pipe -> send queued -> abandoned by {cancel, aio timeout, a second send on the same context,
+                 closing the context, cancelling a receive posted meanwhile, or a refused non-blocking send} -> a pipe
+                 connects -> the next request goes out -> the peer answers the abandoned id first, then the right one
+      premature  one request occupies the pipe, one or two more are queued behind it -> the peer answers the queued
+                 ids before they are on the wire, then again when they are
+    The generator keeps exact track of ids and of the one pipe it uses, so every token means what the comment says."""
+    g = G(rng)
+    L = g.lines
+    L.append("open s0 req0")
+    resend = rng.choice([None, -1, 60000])
+    if resend is not None:
+        L.append("setopt s0 req:resend-time ms %d" % resend)
+    tgts = ["s0"]
+    for k in range(rng.choice([1, 2, 2, 3])):
+        L.append("ctx c%d s0" % k); tgts.append("c%d" % k)
+    st = {"alloc": 0, "seen": [], "pipe": None, "busy": False, "nadv": 0}
+
+    def idtok(q):
+        if q in st["seen"]:
+            return "[R%d]" % st["seen"].index(q)
+        j = len(st["seen"]) - 1
+        return "[R%d%+d]" % (j, q - st["seen"][j])
+
+    def alloc():
+        st["alloc"] += 1
+        return st["alloc"] - 1
+
+    def hdr():
+        return app_hdr(rng, len(st["seen"]), g.npipes)
+
+    def conn():
+        L.append("conn s0 49"); st["pipe"] = g.npipes; g.npipes += 1; st["busy"] = False
+
+    def sent():
+        if st["pipe"] is not None and st["busy"]:
+            L.append("sent p%d" % st["pipe"]); st["busy"] = False
+
+    def take(t):
+        """the application collects the reply of t: once, then ESTATE"""
+        L.append("recvnb %s" % t if rng.random() < 0.5 else "recv %s %s" % (t, g.aio()))
+        if rng.random() < 0.7:
+            L.append("recvnb %s" % t)
+
+    def exchange():
+        if st["pipe"] is None:
+            conn()
+        sent()
+        t = rng.choice(tgts)
+        q = alloc(); L.append("send %s %s %s %s" % (t, g.aio(), hdr(), g.body("aa"))); st["seen"].append(q); st["busy"] = True
+        early = rng.random() < 0.5
+        if early:
+            L.append("recv %s %s" % (t, g.aio()))
+        if rng.random() < 0.7:
+            sent()
+        p = st["pipe"]
+        for _ in range(rng.choice([1, 1, 2])):
+            L.append("inject p%d %s%s" % (p, idtok(q), g.body("bb")))
+        if not early:
+            take(t)
+        elif rng.random() < 0.7:
+            L.append("recvnb %s" % t)
+        sent()
+
+    def abandon():
+        if not st["seen"]:
+            exchange()
+        if st["pipe"] is not None:
+            sent(); L.append("drop p%d" % st["pipe"]); st["pipe"] = None
+        t = rng.choice(tgts)
+        modes = ["cancel", "replace", "recvcancel", "nbrefused"] + (["ctxclose"] if t != "s0" and len(tgts) > 2 else []) + (["timeout"] if st["nadv"] < 3 else [])
+        mode = rng.choice(modes)
+        a = g.aio()
+        cur = None                       # allocation number of the request of t that is still wanted
+        if mode == "nbrefused":
+            q1 = alloc(); L.append("sendnb %s %s %s" % (t, hdr(), g.body("aa")))
+        else:
+            if mode == "timeout":
+                L.append("aiotmo %s 1500" % a)
+            q1 = alloc(); L.append("send %s %s %s %s" % (t, a, hdr(), g.body("aa")))
+        if mode == "cancel":
+            L.append("cancel %s" % a)
+        elif mode == "timeout":
+            L.append("advance 3000"); st["nadv"] += 1
+        elif mode == "replace":
+            cur = alloc(); L.append("send %s %s %s %s" % (t, g.aio(), hdr(), g.body("aa")))
+        elif mode == "ctxclose":
+            L.append("ctxclose %s" % t); tgts.remove(t)
+        elif mode == "recvcancel":
+            ra = g.aio(); L.append("recv %s %s" % (t, ra)); L.append("cancel %s" % ra)
+        if rng.random() < 0.3:
+            L.append("recvnb %s" % t if t in tgts else "poll")      # nothing outstanding (or still queued)
+        conn()
+        t2 = t if (t in tgts and rng.random() < 0.8) else rng.choice(tgts)
+        if cur is not None:
+            st["seen"].append(cur); st["busy"] = True; t2 = t       # the queued replacement goes out at once
+        else:
+            cur = alloc(); L.append("send %s %s %s %s" % (t2, g.aio(), hdr(), g.body("aa"))); st["seen"].append(cur); st["busy"] = True
+        early = rng.random() < 0.6
+        if early:
+            L.append("recv %s %s" % (t2, g.aio()))
+        if rng.random() < 0.7:
+            sent()
+        p = st["pipe"]
+        L.append("inject p%d %s%s" % (p, idtok(q1), g.body("bb")))            # the abandoned id: never to be delivered
+        if rng.random() < 0.3:
+            L.append("inject p%d %s%s" % (p, idtok(q1), g.body("bb")))
+        if rng.random() < 0.5:
+            L.append("recvnb %s" % t2 if not early else "poll")
+        L.append("inject p%d %s%s" % (p, idtok(cur), g.body("bb")))           # the right one
+        if not early:
+            take(t2)
+        else:
+            L.append("recvnb %s" % t2)
+        sent()
+
+    def premature():
+        if len(tgts) < 2:
+            return exchange()
+        if st["pipe"] is None:
+            conn()
+        sent()
+        ts = rng.sample(tgts, min(len(tgts), rng.choice([2, 2, 3])))
+        qs = []
+        for i, t in enumerate(ts):
+            qs.append(alloc()); L.append("send %s %s %s %s" % (t, g.aio(), hdr(), g.body("aa")))
+            if i == 0:
+                st["seen"].append(qs[0]); st["busy"] = True
+        early = [rng.random() < 0.6 for _ in ts]
+        for t, e in zip(ts, early):
+            if e:
+                L.append("recv %s %s" % (t, g.aio()))
+        p = st["pipe"]
+        for q in qs[1:]:
+            L.append("inject p%d %s%s" % (p, idtok(q), g.body("bb")))         # not yet on the wire: never to be delivered
+        for i in range(1, len(ts)):
+            if rng.random() < 0.4:
+                L.append("recvnb %s" % ts[i])
+            L.append("sent p%d" % p); st["seen"].append(qs[i])               # the next queued request goes out
+            if rng.random() < 0.5 and i + 1 < len(ts):
+                L.append("inject p%d %s%s" % (p, idtok(qs[i + 1]), g.body("bb")))
+        order = list(range(len(ts)))
+        rng.shuffle(order)
+        for i in order:
+            L.append("inject p%d %s%s" % (p, idtok(qs[i]), g.body("bb")))
+            if not early[i]:
+                take(ts[i])
+            elif rng.random() < 0.5:
+                L.append("recvnb %s" % ts[i])
+        sent()
+
+    exchange() if rng.random() < 0.6 else None
+    for _ in range(rng.choice([1, 2, 2, 3])):
+        rng.choice([abandon, abandon, premature, premature, exchange])()
+    if rng.random() < 0.4:
+        for c in tgts[1:]:
+            L.append("ctxclose %s" % c)
+        L.append("close s0")
+    return L
+
+
 def gen_rep_case(rng):
     g = G(rng)
     L = g.lines
@@ -181,6 +387,7 @@ def gen_rep_case(rng):
         L.append("setopt s0 ttl-max int %d" % rng.choice([0, 1, 1, 2, 3, 5, 8, 15, 15, 16]))
     for k in range(rng.choice([0, 0, 1, 2, 3])):
         L.append("ctx c%d s0" % k); g.ctxs.append("c%d" % k)
+    ids = []            # request ids the requesters used (what an application header may imitate)
     for _ in range(rng.randrange(4, 50)):
         r = rng.random()
         if r < 0.10 and g.npipes < 3:
@@ -189,7 +396,7 @@ def gen_rep_case(rng):
             nw = rng.choice([0, 0, 0, 1, 1, 2, 3, 4, 7, 8, 14, 15, 16, 20])
             k = rng.random()
             if k < 0.85:
-                tail = "%08x" % (0x80000000 | rng.randrange(1 << 31))
+                tail = "%08x" % (0x80000000 | rng.randrange(1 << 31)); ids.append(tail)
             elif k < 0.93:
                 tail = ""                                       # no terminating id
             else:
@@ -200,7 +407,8 @@ def gen_rep_case(rng):
             L.append("recv %s %s" % (t, g.aio()) if rng.random() < 0.55 else "recvnb %s" % t)
         elif r < 0.70:
             t = g.tgt()
-            L.append("send %s %s - %s" % (t, g.aio(), g.body("dd")) if rng.random() < 0.6 else "sendnb %s - %s" % (t, g.body("dd")))
+            h = app_hdr(rng, 0, g.npipes, ids[-4:])
+            L.append("send %s %s %s %s" % (t, g.aio(), h, g.body("dd")) if rng.random() < 0.6 else "sendnb %s %s %s" % (t, h, g.body("dd")))
         elif r < 0.84 and g.npipes:
             L.append("sent p%d%s" % (rng.randrange(g.npipes), " 31" if rng.random() < 0.04 else ""))
         elif r < 0.89 and g.npipes:
@@ -337,6 +545,7 @@ def oracle_req(case, obs, raw, c12=False, stats=None):
     tx_seen = {}        # pipe -> current tx string
     pipe_of = {}        # request body -> pipe it was last written to
     lost_noretry = set()  # targets whose connection was lost with resending disabled (may report ECONNRESET once)
+    answered = {}       # target -> body of the request whose reply the application has collected (nothing is outstanding)
     for k, line in enumerate(case):
         t = line.split()
         o = obs[k] if k < len(obs) else None
@@ -360,13 +569,15 @@ def oracle_req(case, obs, raw, c12=False, stats=None):
             failed_now = any(a == int(t[2][1:]) and rv != 0 for a, rv, e in o["done"]) if op == "send" else (o["rv"] != 0)
             if old is not None:
                 old["superseded"] = True
+            if o["rv"] != 7:
+                answered.pop(tgt, None)
             if pend_recv.get(tgt) is not None and o["rv"] != 7 and not (op == "send" and o["rv"] == 4):
                 a = pend_recv[tgt]
                 if not any(x == a and rv == 20 for x, rv, e in o["done"]):
                     return (k, "a new request did not cancel the pending receive a%d with NNG_ECANCELED" % a)
             if accepted and not failed_now:
                 rec = {"body": body, "rid": None, "wire": None, "delivered": 0, "ntx": 0, "tgt": tgt, "superseded": False,
-                       "resend": resend.get(tgt, sock_resend)}
+                       "resend": resend.get(tgt, sock_resend), "apphdr": t[3] if op == "send" else t[2]}
                 cur[tgt] = rec; by_body[body] = rec
             else:
                 cur[tgt] = None
@@ -380,6 +591,12 @@ def oracle_req(case, obs, raw, c12=False, stats=None):
                     rec = by_body.get(body)
                     if rec is None:
                         return (k, "a message that no request of the application carries was transmitted: %s" % tx)
+                    # what goes out is a fresh request id followed by the body, whatever header the application left on the message
+                    if not re.match(r"^\[R\d+\]$", hdr):
+                        return (k, "request %s transmitted with header %s: not exactly one request id (the header the application supplied is %s)"
+                                % (body, hdr, rec.get("apphdr")))
+                    if any(r2 is not rec and r2["rid"] == hdr for r2 in by_body.values()):
+                        return (k, "request %s transmitted with id %s, which another request of this socket carries" % (body, hdr))
                     if rec["rid"] is None:
                         rec["rid"] = hdr; rec["wire"] = k
                     elif rec["rid"] != hdr:
@@ -393,9 +610,24 @@ def oracle_req(case, obs, raw, c12=False, stats=None):
                     if rec["superseded"]:
                         return (k, "request %s was (re)transmitted after a newer request replaced it" % body)
         if op == "inject" and o["rv"] == 0:
-            m = re.match(r"^(\[R\d+\]|[0-9a-f]{8})((?:[0-9a-f]{2})*)$", t[2])
+            # a relative token ([R<n>+k]) is judged by the spelling the driver reports: [R<m>] if it is an id that has
+            # been on the wire, otherwise it names an id the peer was never shown
+            m = re.match(r"^(\[R\d+(?:[+-]\d+)?\]|[0-9a-f]{8})((?:[0-9a-f]{2})*)$", o.get("inj") or t[2])
             if m and m.group(2):
                 injected[m.group(2)] = (m.group(1), k)
+        if op in ("ctxclose", "close"):
+            for tg in list(answered):
+                if op == "close" or tg == t[1]:
+                    answered.pop(tg)
+        if op in ("recv", "recvnb") and tgt in answered and o["rv"] not in (7, 12):
+            # the reply to the last request has been collected and no new request was made
+            a = int(t[2][1:]) if op == "recv" else None
+            res = o["rv"] if op == "recvnb" else ([rv for x, rv, e in o["done"] if x == a] or [None])[0]
+            if op == "recv" and o["rv"] != 0:
+                res = 11        # the driver refused (aio in use): says nothing about the socket
+            if res != 11 and not (o["got"] or any(x == a and rv == 0 for x, rv, e in o["done"])):
+                return (k, "%s has collected the reply to its request %s and made no new request: a receive must fail with NNG_ESTATE, not %s"
+                        % (tgt, answered[tgt], "stay pending" if res is None else "return %s" % res))
         if op == "recv":
             if o["rv"] == 0:
                 a = int(t[2][1:]); recv_target[a] = tgt
@@ -430,7 +662,9 @@ def oracle_req(case, obs, raw, c12=False, stats=None):
             rec = cur.get(tg)
             if rec is None:
                 return (k, "%s received reply %s without an outstanding request" % (tg, body))
-            if rec["rid"] is None or rid != rec["rid"]:
+            if rec["rid"] is None:
+                return (k, "%s received reply %s (id %s) although its outstanding request %s has not been on the wire yet" % (tg, body, rid, rec["body"]))
+            if rid != rec["rid"]:
                 return (k, "%s received reply %s carrying id %s, its outstanding request %s has id %s" % (tg, body, rid, rec["body"], rec["rid"]))
             if kin < rec["wire"]:
                 return (k, "%s received reply %s that arrived before its request %s was on the wire" % (tg, body, rec["body"]))
@@ -439,6 +673,7 @@ def oracle_req(case, obs, raw, c12=False, stats=None):
             if hdr != "-":
                 return (k, "reply delivered with a non-empty header %s" % hdr)
             rec["delivered"] += 1
+            answered[tg] = rec["body"]
         if c12:
             # connection loss with resending disabled: the pending receive fails with ECONNRESET (never hangs, never ECLOSED)
             for a, rv, e in o["done"]:
@@ -690,6 +925,25 @@ FIXED_CASES = [
      "sendnb c0 - dd01", "sendnb c1 - dd02", "sent p0", "sendnb c1 - dd02"],
     ["open s0 rep0", "ctx c0 s0", "ctx c1 s0", "conn s0 48", "inject p0 80000001cc01", "inject p0 80000002cc02", "inject p0 80000003cc03", "recvnb c1",
      "send c1 a9 - dd00", "recvnb c0", "send c0 a0 - dd01", "recvnb c0", "send c0 a1 - dd02", "sent p0", "sent p0", "send c0 a2 - dd02", "sent p0", "sent p0"],
+    # ids the peer was never shown.  A request abandoned before it reached the wire (cancelled / replaced / context closed
+    # while it waited for a pipe) has consumed an id; a reply naming it ([R0-1]: the id before the first one seen) is discarded
+    ["open s0 req0", "ctx c0 s0", "send c0 a0 - aa01", "cancel a0", "conn s0 49", "send c0 a1 - aa02", "recv c0 a2", "inject p0 [R0-1]bb01",
+     "inject p0 [R0]bb02", "recvnb c0", "inject p0 [R0]bb03", "recvnb c0"],
+    ["open s0 req0", "send s0 a0 - aa01", "send s0 a1 - aa02", "conn s0 49", "inject p0 [R0-1]bb01", "recvnb s0", "inject p0 [R0]bb02", "recvnb s0", "recvnb s0"],
+    ["open s0 req0", "ctx c0 s0", "ctx c1 s0", "send c0 a0 - aa01", "ctxclose c0", "conn s0 49", "send c1 a1 - aa02", "inject p0 [R0-1]bb01", "inject p0 [R0]bb02",
+     "recvnb c1", "recvnb c1"],
+    ["open s0 req0", "ctx c0 s0", "aiotmo a0 1500", "send c0 a0 - aa01", "advance 3000", "conn s0 49", "send c0 a1 - aa02", "sent p0", "inject p0 [R0-1]bb01",
+     "recvnb c0", "inject p0 [R0]bb02", "recvnb c0", "recvnb c0"],
+    # a reply naming the id of a request that is still queued behind a busy pipe ([R0+1]) is discarded; once the request is out
+    # the same id ([R1] by then) is answered
+    ["open s0 req0", "ctx c0 s0", "ctx c1 s0", "conn s0 49", "send c0 a0 - aa01", "send c1 a1 - aa02", "recv c1 a2", "inject p0 [R0+1]bb01", "sent p0",
+     "inject p0 [R1]bb02", "recvnb c1", "inject p0 [R0]bb03", "recvnb c0", "sent p0"],
+    # whatever header the application leaves on a message, a cooked REQ sends id ++ body and a cooked REP backtrace ++ body
+    ["open s0 req0", "ctx c0 s0", "conn s0 49", "send c0 a0 80000099 aa01", "sent p0", "send s0 a1 [P0]0000000780000098 aa02", "inject p0 [R0]bb01",
+     "recvnb c0", "inject p0 [R1]bb02", "recvnb s0", "sendnb c0 [R0] aa03", "sent p0", "sent p0", "inject p0 [R2]bb03", "recvnb c0"],
+    ["open s0 rep0", "ctx c0 s0", "conn s0 48", "inject p0 0123456780000042cc01", "recvnb c0", "send c0 a0 80000099 dd01", "sent p0", "inject p0 80000043cc02",
+     "recvnb s0", "sendnb s0 [P0]7654321080000043 dd02", "sent p0", "inject p0 80000044cc03", "recvnb c0", "inject p0 80000045cc04", "recvnb s0",
+     "send c0 a1 80000045 dd03", "send s0 a2 80000044ffffffff00000001 dd04", "sent p0", "sent p0"],
 ]
 # which known finding a crash of a FIXED_CASE means on a tree that does not have the repair
 FIXED_KEYS = {0: ("REQ_CLONE", "req-clone-policy"), 1: ("REQ_CLONE", "req-clone-policy"), 2: ("REQ_CLONE", "req-clone-policy"),
@@ -698,12 +952,14 @@ FIXED_KEYS = {0: ("REQ_CLONE", "req-clone-policy"), 1: ("REQ_CLONE", "req-clone-
 
 def gen_case(rng, i, flags):
     full = flags.get("REQ_CLONE") and flags.get("REQ_CANCEL_SEND")
-    w = i % 10
+    w = i % 12
     if w < 4:
         return gen_req_case(rng, allow_opt_change=bool(full), allow_cancel_send=bool(full))
-    if w < 7:
+    if w < 6:
+        return gen_req_ids_case(rng)
+    if w < 9:
         return gen_rep_case(rng)
-    if w < 8:
+    if w < 10:
         return gen_xreq_case(rng)
     return gen_xrep_case(rng)
 
@@ -718,7 +974,7 @@ def run(tier, seed, replay=None):
         return rep.finish()
     flags = fixed_flags()
     rng = random.Random(seed)
-    n = 260 if tier == "quick" else 6000
+    n = 312 if tier == "quick" else 7200
     STATS.clear()
     if replay:
         cases = [[l.strip() for l in open(replay) if l.strip() and not l.startswith("#")]]
@@ -743,11 +999,18 @@ def run(tier, seed, replay=None):
     rep.cov["source_repairs_detected"] = flags
     rep.cov["spec_clauses_exercised"] = dict(sorted(STATS.items()))
     rep.cov["rule"] = ("random histories over the deterministic transport, same script on the real library and on the extracted models: "
-                       "REQ (4/10): socket context + 0-3 contexts, <= 3 pipes (right and wrong peer), resend time infinite / 5 s / 60 s per context, blocking and "
+                       "REQ (4/12): socket context + 0-3 contexts, <= 3 pipes (right and wrong peer), resend time infinite / 5 s / 60 s per context, blocking and "
                        "non-blocking sends and receives, cancels, raw repliers injecting current / stale / other contexts' / unknown ids, ids without the high bit, "
-                       "ids not yet on the wire, ids behind a backtrace word, duplicates, truncated replies, transport completions one at a time, connection loss; "
+                       "ids not yet on the wire, ids relative to a seen id ([R<n>+k]: consecutive allocation makes the ids of abandoned, refused and queued requests "
+                       "predictable), ids behind a backtrace word, duplicates, truncated replies, transport completions one at a time, connection loss, requests "
+                       "queued for want of a pipe and abandoned (cancel / replaced / context closed) before a pipe connects; "
                        "on a repaired tree also resend-time changes and send cancels at any point; "
-                       "REP (3/10): TTL 1..15 (and invalid), backtraces of 0-20 words with / without / with a truncated id, 0-3 contexts, replies blocking and non-blocking, "
-                       "busy pipes, cancels, pipe loss; raw REQ (1/10) and raw REP (2/10): headers of 0-3 words, unknown / short pipe ids, queue depths 0-4, resizes.  "
+                       "REQ directed (2/12, exact id bookkeeping): request abandoned before it reached the wire by cancel / aio timeout (virtual clock) / second send / "
+                       "context close / receive cancel / refused non-blocking send, then a pipe connects, the next request goes out and the peer answers the "
+                       "abandoned id first; requests queued behind a busy pipe answered before they are on the wire and again afterwards; "
+                       "REP (3/12): TTL 1..15 (and invalid), backtraces of 0-20 words with / without / with a truncated id, 0-3 contexts, replies blocking and non-blocking, "
+                       "busy pipes, cancels, pipe loss; every cooked send (REQ and REP) is given an empty header or 1-3 application header words (random, high bit set, "
+                       "ids of live requests, pipe ids) that must not reach the wire; "
+                       "raw REQ (1/12) and raw REP (2/12): headers of 0-3 words, unknown / short pipe ids, queue depths 0-4, resizes.  "
                        "Oracle = the property's clauses evaluated on the implementation's observations (ids and pipes as tokens); non-trivial = some message moves")
     return rep.finish()
